@@ -382,3 +382,28 @@ func DotStuff(msg string) string {
 	}
 	return sb.String()
 }
+
+// ListName extracts the mailbox name of a `* LIST (attrs) "/" name` / LSUB line, undoing quoted-string escaping.
+func ListName(l string) string {
+	i := strings.Index(l, `"/" `)
+	if i < 0 {
+		return l
+	}
+	return Unquote(strings.TrimSpace(l[i+4:]))
+}
+
+// Unquote undoes IMAP quoted-string syntax (atoms are returned as they are).
+func Unquote(n string) string {
+	if len(n) >= 2 && n[0] == '"' && n[len(n)-1] == '"' {
+		n = n[1 : len(n)-1]
+		var sb strings.Builder
+		for i := 0; i < len(n); i++ {
+			if n[i] == '\\' && i+1 < len(n) {
+				i++
+			}
+			sb.WriteByte(n[i])
+		}
+		return sb.String()
+	}
+	return n
+}
